@@ -195,6 +195,47 @@ theorem force_lookup_is_callsite_lookup_partial (sF : St) (K : List (Option Nat)
     lexLookupAt sF K f x = lexLookupAt sF K c x ∧ (∀ s y, lexLookup s y = lexLookupAt s s.linear s.curfunc y) :=
   ⟨force_lookup_eq_callsite sF K f c x hcl hpar hfuel hc, fun _ _ => rfl⟩
 
+/-- **The read happens at force time.** (1) Delaying an argument reads no variable: the new
+thunk has no value for *every* expression — a bare symbol included — and `allocThunk` commutes
+with any change of the scope contents. (2) After a call with only lazy positions every new thunk
+holds its expression and no value. (3) For a thunk whose expression is the bare variable `x`,
+still without value in a later state `s`: the force compiles `x` to the single instruction
+`envToStack x` without touching `s`, and runs it in `forceEntry`, whose scope *contents* are
+those of `s` — the state at the time of the force, not of the call — and `envToStack x` is the
+lookup `lexLookup` in the state it executes in. So a `set` between call and first force is
+seen by the force; one between two forces is not (`force_memoises`). -/
+theorem force_reads_at_force_time :
+    (∀ (e : Expr) (s : St), ∃ lz, (allocThunk e s).lazies[s.lazies.length]? = some lz ∧ lz.e = e ∧ lz.value = none) ∧
+    (∀ (e : Expr) (s : St) (sc : List Scope), allocThunk e { s with scopes := sc } = { allocThunk e s with scopes := sc }) ∧
+    (∀ (fuel : Nat) (f : Option FnObj) (args : List Expr) (i : Nat) (s : St),
+       (∀ j, j < args.length → lazyPos f (i + j) = true) →
+       ∃ s', runM (prepareArgs (fuel + 1 + args.length) f i args) s = (.ok (), s') ∧
+         ∀ j (hj : j < args.length), ∃ lz, s'.lazies[s.lazies.length + j]? = some lz ∧ lz.e = args[j] ∧ lz.value = none) ∧
+    (∀ (fuel id : Nat) (s : St) (lz : LazyObj) (x : String),
+       s.lazies[id]? = some lz → lz.value = none → lz.e = .sym x →
+       runM (forceLazy (fuel + 1) id) s =
+         runM (nested fuel s.fns.length (ctlOf s) >>= forceFinish id lz) (forceEntry lz [.envToStack x] s) ∧
+       (forceEntry lz [.envToStack x] s).scopes = s.scopes ∧
+       (∃ s2, runM (callFunction s.fns.length 0) (forceEntry lz [.envToStack x] s) = (.ok (), s2) ∧
+          s2.scopes = s.scopes ∧ (fnOf s2 s2.curfunc).code = [.envToStack x, .ret] ∧ s2.pc = 0)) ∧
+    (∀ (fuel : Nat) (x : String) (s : St),
+       runM (exec (fuel + 1) (.envToStack x)) s =
+         match lexLookup s x with
+         | some (_, v) => (.ok (), { s with data := some v :: s.data, pc := s.pc + 1 })
+         | none => (.error .err, s)) := by
+  refine ⟨fun e s => ⟨_, (allocThunk_new e s).1, rfl, rfl⟩, allocThunk_reads_no_variable, ?_, ?_, exec_envToStack⟩
+  · intro fuel f args i s h
+    refine ⟨_, by rw [prepareArgs_eq_plan]; exact prepPlan_all_lazy (fuel + 1) f args i s h, ?_⟩
+    intro j hj
+    obtain ⟨lz, h1, h2, h3, _⟩ := allocThunk_fold_thunks args s j hj
+    exact ⟨lz, h1, h2, h3⟩
+  · intro fuel id s lz x hlz hv he
+    have hgen : runM (runGen (compile (isFnScope s) {} lz.e)) s = (.ok ([.envToStack x], false), s) := by
+      rw [he]; exact runGen_compile_sym s x
+    refine ⟨force_runs_in_entry_state fuel id s s lz [.envToStack x] false hlz hv hgen rfl, rfl, ?_⟩
+    obtain ⟨s2, h2, _, _, c, _, _, f', g, _⟩ := force_body_state lz [.envToStack x] s
+    exact ⟨s2, h2, g, f', c⟩
+
 /-! ## (d) strict positions -/
 
 /-- **Exactly once, before the call.** Whatever the other arguments are, the argument at a
@@ -284,7 +325,9 @@ theorem self_tail_call_uses_own_template (isFn : Nat → Bool) (c : Ctx) (h : St
           | some fo => if fo.varargs then decide (fo.nargs ≤ args.length) else args.length == fo.nargs
           | none => true) then do
         let code ← compileCallArgs isFn { c with tail := false } ((c.known.lookup h).bind (fun t => gs.fns[t]?)) 0 args
-        pure (code ++ [.prepareCall h args.length] ++ List.replicate (c.scopes + 1) .removeScope ++ [.goto 0], c.tail)
+        -- (after fix C09-02: the guard in front, the ordinary call behind the jump)
+        pure ([.tailGuard h (code.length + c.scopes + 4)] ++ code ++ [.prepareCall h args.length] ++
+              List.replicate (c.scopes + 1) .removeScope ++ [.goto 0, .callExpr (.sym h) args], c.tail)
       else pure ([.callExpr (.sym h) args], c.tail)) :=
   compile_self_tail_call isFn c h args hn
 
@@ -359,6 +402,11 @@ example : (sThunk.lazies[0]?.map (·.value)) = some none ∧
 -- `substitute` on it leaves the trace empty and the thunk unforced
 example : (runM (builtin 5 "substitute" [.lazy 0]) sThunk).2.trace.length = 0 ∧
           ((runM (builtin 5 "substitute" [.lazy 0]) sThunk).2.lazies[0]?.map (·.value)) = some none := by decide +kernel
+
+-- `force_reads_at_force_time`, part 4: a state with an unforced thunk of the bare variable `a`
+def sVar : St := allocThunk (.sym "a") initSt
+example : (sVar.lazies[0]?.map (fun lz => (lz.value, match lz.e with | .sym x => x == "a" | _ => false))) = some (none, true) := by
+  decide +kernel
 
 -- the hypotheses of `force_lookup_is_callsite_lookup_partial` on the state a top-level force runs in
 def sForce : St := { initSt with fns := initSt.fns ++ [({ name := "lazyArgForce", closing := [some 0], parent := some 0 } : FnObj)],
